@@ -246,7 +246,7 @@ Definition count_kind (p : program) (k : nat) : nat :=
 Definition stats (p : program) : list nat :=
   [List.length (refs p); count_kind p 0; count_kind p 1; count_kind p 2; count_kind p 3; count_kind p 4;
    List.length (filter (is_arity_checked p) (refs p)); List.length (p_modules p);
-   List.length (flat_map m_scopes (p_modules p)); List.length (p_ext p)].
+   List.length (flat_map m_scopes (p_modules p)); List.length (p_ext p); List.length (failing_idx p)].
 
 (* ---------------------------------------------------------------- dynamic part: the predicate
    A run = (tag of the re-presentation of the input, arguments and defaults bit-for-bit unchanged by the call,
